@@ -312,8 +312,10 @@ func main() {
 		c.Part("decode-outer")
 		body := strings.Split(strings.TrimSuffix(refage.Armor(lab.Plain(50, 5)), "\n"), "\n")
 		leads := map[string]string{"none": "", "blank": "\n\n", "spaces": "  \n\t\n", "w1022": strings.Repeat(" ", 1021) + "\n", "w1023": strings.Repeat(" ", 1022) + "\n", "w1024": strings.Repeat(" ", 1023) + "\n", "w1025": strings.Repeat(" ", 1024) + "\n",
-			"lines512x2": strings.Repeat(" ", 511) + "\n" + strings.Repeat(" ", 511) + "\n", "lines512x2+1": strings.Repeat(" ", 511) + "\n" + strings.Repeat(" ", 512) + "\n", "garbage": "x\n", "nul": "\x00\n", "bom": "\xef\xbb\xbf"}
-		trails := map[string]string{"none": "", "nl": "\n", "spaces": "  \t", "w1022": strings.Repeat(" ", 1022), "w1023": strings.Repeat("\n", 1023), "w1024": strings.Repeat(" ", 1024), "w1025": strings.Repeat(" ", 1025), "garbage": "x", "ws+garbage": " \n x", "second": strings.Join(body, "\n") + "\n", "nul": "\x00", "crs": "\r\r",
+			"lines512x2": strings.Repeat(" ", 511) + "\n" + strings.Repeat(" ", 511) + "\n", "lines512x2+1": strings.Repeat(" ", 511) + "\n" + strings.Repeat(" ", 512) + "\n", "garbage": "x\n", "nul": "\x00\n", "bom": "\xef\xbb\xbf",
+			// bytes that are white space in Latin-1 / Unicode but not in ASCII, alone on a line and inside a blank line
+			"nbsp-line": "\xa0\n", "nel-line": "\x85\n", "nbsp-in-blank": " \xa0 \n", "nel-after-blank": "\n\x85\n", "u2028-line": "\xe2\x80\xa8\n", "u00a0-line": "\xc2\xa0\n", "vt-line": "\x0b\n", "ff-line": "\x0c\n"}
+		trails := map[string]string{"none": "", "nl": "\n", "spaces": "  \t", "w1022": strings.Repeat(" ", 1022), "w1023": strings.Repeat("\n", 1023), "w1024": strings.Repeat(" ", 1024), "w1025": strings.Repeat(" ", 1025), "garbage": "x", "ws+garbage": " \n x", "second": strings.Join(body, "\n") + "\n", "nul": "\x00", "crs": "\r\r", "nbsp": "\xa0", "nel": "\n\x85\n", "u00a0": "\xc2\xa0", "vt": "\x0b", "ff": "\x0c",
 			"w600+garbage": strings.Repeat(" ", 600) + "x", "w1023+garbage": strings.Repeat(" ", 1023) + "x", "w1024+garbage": strings.Repeat(" ", 1024) + "x", "nl1500+garbage": strings.Repeat("\n", 1500) + "x",
 			"nl2000+second": strings.Repeat("\n", 2000) + strings.Join(body, "\n") + "\n", "w4096+garbage": strings.Repeat(" ", 4096) + "-----BEGIN"}
 		c.Bound("%d leading x %d trailing variants (incl. 1022..1025 bytes of whitespace, garbage, second armor block, garbage or a second block behind 600..4096 bytes of whitespace) x terminators {LF,CRLF} x final newline", len(leads), len(trails))
